@@ -406,6 +406,20 @@ private: ///////////////////////////////////////////////////////////////////////
     }
 
     /**
+     * Erase the edge with a provided destination that shares the edge data v,
+     * i.e., the reverse entry of one particular (parallel) edge.
+     */
+    template <typename DataPtrTy>
+    void erase(gNode* N, bool inEdge, DataPtrTy v) {
+      for (iterator ii = find(N, inEdge), ei = end(); ii != ei; ++ii) {
+        if (ii->first() == N && ii->isInEdge() == inEdge && ii->second() == v) {
+          edges.erase(ii);
+          return;
+        }
+      }
+    }
+
+    /**
      * Find an edge with a particular destination node.
      */
     iterator find(gNode* N, bool inEdge = false) {
@@ -816,10 +830,19 @@ public
       src->erase(dst.base());
     } else {
       dst->first()->acquire(mflag);
-      // EdgeTy* e = dst->second();
-      dst->first()->erase(
-          src, Directional ? true : false); // erase incoming/symmetric edge
-      src->erase(dst.base());
+      // erase incoming/symmetric edge: with parallel edges it has to be the
+      // entry that shares this edge's data, not just any entry for src
+      if (dst->first() == src) {
+        // self loop: both entries live in src's edge list, so erasing one
+        // invalidates iterators to the other; erase through the valid
+        // iterator first, then look the twin up again
+        auto e = dst->second();
+        src->erase(dst.base());
+        src->erase(src, Directional ? true : false, e);
+      } else {
+        dst->first()->erase(src, Directional ? true : false, dst->second());
+        src->erase(dst.base());
+      }
     }
   }
 
